@@ -165,7 +165,7 @@ def build_world():
 
 
 # --------------------------------------------------------------------------- concrete side
-def run_case(spec_msgs, lead, chunk):
+def run_case(spec_msgs, lead, chunk, fd_start=100):
     """spec_msgs: list of (kind, nfds); descriptors arrive `lead` messages ahead of their bytes; reads of `chunk` bytes"""
     from twisted.internet.testing import StringTransport
     from txdbus import protocol, message, marshal
@@ -189,7 +189,8 @@ def run_case(spec_msgs, lead, chunk):
     s.transport = Tr()
     expect = []
     arrays = []
-    fd_counter = [100]
+    fd_counter = [fd_start]            # descriptor numbers are small non-negative integers: 0 (the process's standard input) is one of them
+    shapes = []
     for kind, nf in spec_msgs:
         fds = [fd_counter[0] + i for i in range(nf)]
         if nf >= 2 and (fd_counter[0] // 10) % 3 == 0:
@@ -198,9 +199,16 @@ def run_case(spec_msgs, lead, chunk):
         # descriptors travel as separate 'h' arguments or, every other time, as ONE array argument 'ah': the number of
         # descriptors of a message is not the number of 'h' codes in its signature
         as_array = nf >= 2 and (fd_counter[0] // 10) % 2 == 0
-        sig = 'sah' if as_array else 's' + 'h' * nf
-        body = ['x', list(fds)] if as_array else ['x'] + fds
+        # ... or nested in structs after a first plain one: the position of a descriptor in the message counts on across containers
+        as_struct = (not as_array) and nf >= 2 and (fd_counter[0] // 10) % 3 == 1
+        if as_struct:
+            sig = 'sh' + '(hs)' * (nf - 1)
+            body = ['x', fds[0]] + [[f, 't'] for f in fds[1:]]
+        else:
+            sig = 'sah' if as_array else 's' + 'h' * nf
+            body = ['x', list(fds)] if as_array else ['x'] + fds
         arrays.append(as_array)
+        shapes.append('struct' if as_struct else 'array' if as_array else 'flat')
         if kind == 'call':
             m = message.MethodCallMessage('/o', 'M', interface='org.e.I', signature=sig, body=body, oobFDs=[])
         else:
@@ -261,11 +269,52 @@ def run_case(spec_msgs, lead, chunk):
     if len(r.got) != len(msgs):
         return 'delivered %d of %d messages' % (len(r.got), len(msgs))
     for i, (m, fds) in enumerate(zip(r.got, expect)):
-        got_fds = list(m.body[1]) if arrays[i] else list(m.body[1:])
+        got_fds = list(m.body[1]) if arrays[i] else ([m.body[1]] + [x[0] for x in m.body[2:]]) if shapes[i] == 'struct' else list(m.body[1:])
         if got_fds != fds:
             return 'message %d %r: descriptor arguments %r, expected %r (lead %d, read size %s)' % (i, spec_msgs[i], m.body[1:], fds, lead, chunk)
     if r._receivedFDs:
         return 'descriptors left in the queue after all messages: %r' % (r._receivedFDs,)
+    return None
+
+
+def auth_boundary_case():
+    """the accepting side: the peer's last authentication line and its first descriptor-carrying messages arrive in ONE read (the
+    descriptors are reported with that read, before its bytes): the messages get their descriptors"""
+    from twisted.internet.testing import StringTransport
+    from txdbus import protocol, message
+
+    class Auth:
+        done = False
+        def handleAuthMessage(self, line): self.done = self.done or line == b'BEGIN'
+        def authenticationSucceeded(self): return self.done
+        def getGUID(self): return 'guid'
+
+    class Receiver(protocol.BasicDBusProtocol):
+        _client = False
+        def methodCallReceived(self, m): self.got.append(m)
+    m1 = message.MethodCallMessage('/o', 'M', interface='org.e.I', signature='hsh', body=[0, 'x', 1], oobFDs=[])
+    m2 = message.MethodCallMessage('/o', 'N', interface='org.e.I', signature='h', body=[0], oobFDs=[])
+    was = protocol._is_linux
+    protocol._is_linux = False
+    try:
+        for how, reads in (('BEGIN and the messages in one read', [b'\0AUTH ANONYMOUS\r\n', b'BEGIN\r\n' + m1.rawMessage + m2.rawMessage]),
+                           ('the whole stream in one read', [b'\0AUTH ANONYMOUS\r\nBEGIN\r\n' + m1.rawMessage + m2.rawMessage]),
+                           ('BEGIN alone, then the messages', [b'\0AUTH ANONYMOUS\r\nBEGIN\r\n', m1.rawMessage + m2.rawMessage])):
+            r = Receiver()
+            r.got = []
+            r.transport = StringTransport()
+            r._receivedFDs = []
+            r._dbusAuth = Auth()
+            for k, data in enumerate(reads):
+                if k == len(reads) - 1:
+                    for f in (41, 42, 43):
+                        r.fileDescriptorReceived(f)
+                r.dataReceived(data)
+            got = [list(m.body) for m in r.got]
+            if got != [[41, 'x', 42], [43]]:
+                return 'accepting side, %s: the descriptor arguments of the first messages resolve to %r, expected [[41, x, 42], [43]]' % (how, got)
+    finally:
+        protocol._is_linux = was
     return None
 
 
@@ -410,11 +459,18 @@ def bounded(tier, seed):
             for chunk in ((1, 3, 16, 17, 100, 10 ** 6, 'all', 'mid') if tier == 'thorough' else (1, 17, 10 ** 6, 'all', 'mid')):
                 n += 1
                 try:
-                    f = run_case(seq, lead, chunk)
+                    f = run_case(seq, lead, chunk, fd_start=0 if (lead + len(seq)) % 2 == 0 else 100)
                 except Exception as e:
                     f = 'raised %s: %s' % (type(e).__name__, e)
                 if f:
                     return n, f, {'messages': seq, 'fd_lead': lead, 'read_size': chunk}
+    n += 1
+    try:
+        f = auth_boundary_case()
+    except Exception as e:
+        f = 'descriptors at the end of the authentication exchange raised %s: %s' % (type(e).__name__, e)
+    if f:
+        return n, f, {'case': 'descriptors with the last authentication line'}
     n += 1
     try:
         f = foreign_index_case()
